@@ -1656,7 +1656,9 @@ class DocutilsRenderer(RendererProtocol):
         MockRSTParser().parse(pseudosource, newdoc)
         for node in newdoc:
             if node["names"]:
-                self.document.note_explicit_target(node, node)
+                # note: system messages (e.g. for duplicate names) must not be
+                # appended to the node itself, since it can be a childless target
+                self.document.note_explicit_target(node, self.current_node)
         self.current_node.extend(newdoc.children)
 
     def render_directive(
